@@ -71,6 +71,15 @@ def atom_calls():
     calls["PlaneWave.multislice(atoms)"] = lambda a: abtem.PlaneWave(energy=1e5, sampling=0.25).multislice(a, lazy=False)
     calls["FrozenPhonons.iterate"] = lambda a: list(abtem.FrozenPhonons(a, 2, 0.1, seed=(1, 2)))
     calls["FrozenPhonons.potential"] = lambda a: abtem.Potential(abtem.FrozenPhonons(a, 2, 0.1, seed=(1, 2)), sampling=0.25, slice_thickness=2.0).build(lazy=False)
+    # FrozenPhonons option alphabet: how the displacements are specified (zero displacements included) x lazy x configurations
+    sig = {"0.1": lambda a: 0.1, "0.0": lambda a: 0.0, "dict": lambda a: {s_: 0.05 for s_ in set(a.get_chemical_symbols())},
+           "dict0": lambda a: {s_: 0.0 for s_ in set(a.get_chemical_symbols())}, "array": lambda a: np.full(len(a), 0.07), "array0": lambda a: np.zeros(len(a)),
+           "aniso0": lambda a: np.zeros((len(a), 3))}
+    for sname, lazy, ncfg in itertools.product(sig, (False, True), (1, 2)):
+        def fp_call(a, sname=sname, lazy=lazy, ncfg=ncfg):
+            pot = abtem.Potential(abtem.FrozenPhonons(a, ncfg, sig[sname](a), seed=(1, 2)[:ncfg]), sampling=0.25, slice_thickness=2.0).build(lazy=lazy)
+            return pot.compute() if lazy else pot
+        calls["FrozenPhonons.potential[sigmas=%s,lazy=%s,n=%d]" % (sname, lazy, ncfg)] = fp_call
     calls["AtomsEnsemble.potential"] = lambda a: None  # handled specially (two Atoms objects)
     calls["StructureFactor.build"] = lambda a: abtem.bloch.StructureFactor(a, g_max=2.0).build(lazy=False)
     calls["BlochWaves"] = lambda a: abtem.bloch.BlochWaves(a, energy=1e5, sg_max=0.1, g_max=2.0)
